@@ -1,0 +1,42 @@
+// Copyright 2026 Dolthub, Inc.
+//
+// Licensed under the Apache License, Version 2.0 (the "License");
+// you may not use this file except in compliance with the License.
+// You may obtain a copy of the License at
+//
+//     http://www.apache.org/licenses/LICENSE-2.0
+//
+// Unless required by applicable law or agreed to in writing, software
+// distributed under the License is distributed on an "AS IS" BASIS,
+// WITHOUT WARRANTIES OR CONDITIONS OF ANY KIND, either express or implied.
+// See the License for the specific language governing permissions and
+// limitations under the License.
+
+//go:build verif
+
+package prolly
+
+import "context"
+
+// Accessors used by the /verif correspondence harness (property C11).
+// Add-only; compiled only with -tags verif. No existing behaviour changes.
+
+// VerifStatic returns the flushed tree currently backing the mutable map.
+func (mut *GenericMutableMap[M, T]) VerifStatic() T {
+	return mut.tuples.Static
+}
+
+// VerifPending returns the number of distinct keys in the pending edit list.
+func (mut *GenericMutableMap[M, T]) VerifPending() int {
+	return mut.tuples.Edits.Count()
+}
+
+// VerifHasStash reports whether a checkpoint is stashed in a separate map.
+func (mut *GenericMutableMap[M, T]) VerifHasStash() bool {
+	return mut.stash != nil
+}
+
+// VerifFlush calls flushPending exactly as Put (deep=false) and VisitGCRoots (deep=true) do.
+func (mut *GenericMutableMap[M, T]) VerifFlush(ctx context.Context, deep bool) error {
+	return mut.flushPending(ctx, deep)
+}
